@@ -602,7 +602,7 @@ func (fi *FuncInfo) callPts(c *ssa.Call, set func(ssa.Value, []PVal), changed *b
 	cc := c.Common()
 	if b, ok := cc.Value.(*ssa.Builtin); ok {
 		switch b.Name() {
-		case "len", "cap", "copy":
+		case "len", "cap", "copy", "min", "max", "clear":
 		case "append":
 			// the result shares dst's backing array (len < cap) or is a new array
 			fresh := Root{Kind: KFresh, Site: c}
@@ -766,6 +766,13 @@ func (fi *FuncInfo) events() {
 			case *ssa.MakeSlice:
 				evs = append(evs, Event{Op: OpKill, Loc: Loc{Root: Root{Kind: KFresh, Site: x}}, Instr: in})
 			case *ssa.UnOp:
+				if x.Op == token.MUL && x.Referrers() != nil && len(*x.Referrers()) == 0 {
+					if _, isArr := x.Type().Underlying().(*types.Array); isArr {
+						// go/ssa evaluates the operand of `for i := range arr` although the language does not
+						// (constant length, no value variable): the loaded array is never used — not a read
+						break
+					}
+				}
 				if x.Op == token.MUL {
 					for _, pv := range fi.operand(x.X) {
 						if pv.Loc.Root.Kind == KNil {
@@ -832,6 +839,15 @@ func (fi *FuncInfo) callEvents(c *ssa.Call) []Event {
 			}
 			fr := Root{Kind: KFresh, Site: c}
 			evs = append(evs, Event{Op: OpKill, Loc: Loc{Root: fr}, Instr: c}, Event{Op: OpWrite, Loc: Loc{fr, EncodePath([]Step{{N: AnyIndex}})}, Instr: c})
+			return evs
+		}
+		if b.Name() == "clear" {
+			for _, pv := range fi.operand(cc.Args[0]) {
+				if pv.Loc.Root.Kind == KNil {
+					continue
+				}
+				evs = append(evs, Event{Op: OpWrite, Loc: Loc{pv.Loc.Root, pv.Loc.Path.Append(Step{N: AnyIndex})}, Instr: c})
+			}
 			return evs
 		}
 		if b.Name() == "copy" {
@@ -1019,6 +1035,101 @@ func sameSet(a, b LocSet) bool {
 	return true
 }
 
+// peelableLoops finds loops whose header has an integer phi entered with a constant and whose body tests that
+// phi for (in)equality with the same constant. Returns, per block of such a loop, its header; and per header the
+// phi and the constant. Only outermost such loops are considered.
+func (fi *FuncInfo) peelableLoops() (map[*ssa.BasicBlock]*ssa.BasicBlock, map[*ssa.BasicBlock]*ssa.Phi, map[*ssa.BasicBlock]constant.Value) {
+	f := fi.Fn
+	of := map[*ssa.BasicBlock]*ssa.BasicBlock{}
+	phis := map[*ssa.BasicBlock]*ssa.Phi{}
+	consts := map[*ssa.BasicBlock]constant.Value{}
+	reach := func(from, to *ssa.BasicBlock, within *ssa.BasicBlock) bool {
+		seen := map[*ssa.BasicBlock]bool{}
+		var walk func(b *ssa.BasicBlock) bool
+		walk = func(b *ssa.BasicBlock) bool {
+			for _, s := range b.Succs {
+				if s == to {
+					return true
+				}
+				if !seen[s] && within.Dominates(s) {
+					seen[s] = true
+					if walk(s) {
+						return true
+					}
+				}
+			}
+			return false
+		}
+		return walk(from)
+	}
+	for _, h := range f.Blocks {
+		if of[h] != nil {
+			continue // inside an outer peelable loop already
+		}
+		back := false
+		for _, p := range h.Preds {
+			if h.Dominates(p) {
+				back = true
+			}
+		}
+		if !back {
+			continue
+		}
+		for _, ins := range h.Instrs {
+			ph, ok := ins.(*ssa.Phi)
+			if !ok {
+				break
+			}
+			var c0 constant.Value
+			okc := true
+			for i, p := range h.Preds {
+				if h.Dominates(p) {
+					continue
+				}
+				c, isC := ph.Edges[i].(*ssa.Const)
+				if !isC || c.Value == nil || c.Value.Kind() != constant.Int || (c0 != nil && !constant.Compare(c0, token.EQL, c.Value)) {
+					okc = false
+					break
+				}
+				c0 = c.Value
+			}
+			if !okc || c0 == nil {
+				continue
+			}
+			used := false
+			for _, ref := range *ph.Referrers() {
+				bo, ok := ref.(*ssa.BinOp)
+				if !ok || (bo.Op != token.EQL && bo.Op != token.NEQ) || !h.Dominates(bo.Block()) {
+					continue
+				}
+				other := bo.Y
+				if bo.Y == ssa.Value(ph) {
+					other = bo.X
+				}
+				if c, isC := other.(*ssa.Const); isC && c.Value != nil && c.Value.Kind() == constant.Int && constant.Compare(c.Value, token.EQL, c0) {
+					for _, r2 := range *bo.Referrers() {
+						if _, isIf := r2.(*ssa.If); isIf {
+							used = true
+						}
+					}
+				}
+			}
+			if !used {
+				continue
+			}
+			phis[h], consts[h] = ph, c0
+			of[h] = h
+			for _, b := range f.Blocks {
+				if b != h && h.Dominates(b) && reach(b, h, h) {
+					of[b] = h
+				}
+			}
+			break
+		}
+	}
+	return of, phis, consts
+}
+
 func (fi *FuncInfo) dataflow() {
 	f := fi.Fn
 	sum := &Summary{Fn: f, MayRead: LocSet{}, MayWrite: LocSet{}, ReadsInitial: LocSet{}, MustWrite: nil, Pairs: map[Pair]struct{}{}}
@@ -1099,18 +1210,102 @@ func (fi *FuncInfo) dataflow() {
 		}
 	}
 
+	// Virtual nodes: node b.Index is block b in general; node n+b.Index is block b during the FIRST iteration of
+	// a loop whose induction variable starts at a constant that the body compares it with (`if i != 63 { … }`:
+	// a folded-back peeled iteration). In that copy the comparison is decided, so a path that would use a
+	// value before the first iteration has produced it is not considered.
+	n := len(f.Blocks)
+	peelOf, peelPhi, peelConst := fi.peelableLoops()
+	succsOf := func(node int) []int {
+		b := f.Blocks[node%n]
+		first := node >= n
+		var out []int
+		for si, sb := range b.Succs {
+			if first {
+				h := peelOf[b]
+				// decided comparisons of the induction variable with its initial value
+				if ifi, ok := b.Instrs[len(b.Instrs)-1].(*ssa.If); ok {
+					if bo, ok := ifi.Cond.(*ssa.BinOp); ok && (bo.Op == token.EQL || bo.Op == token.NEQ) {
+						var other ssa.Value
+						if bo.X == ssa.Value(peelPhi[h]) {
+							other = bo.Y
+						} else if bo.Y == ssa.Value(peelPhi[h]) {
+							other = bo.X
+						}
+						if c, ok := other.(*ssa.Const); ok && c.Value != nil && constant.Compare(c.Value, token.EQL, peelConst[h]) {
+							taken := 0 // EQL: true edge
+							if bo.Op == token.NEQ {
+								taken = 1
+							}
+							if si != taken {
+								continue
+							}
+						}
+					}
+				}
+				switch {
+				case sb == h: // back edge: first iteration over
+					out = append(out, sb.Index)
+				case peelOf[sb] == h:
+					out = append(out, n+sb.Index)
+				default: // leaves the loop
+					out = append(out, sb.Index)
+				}
+				continue
+			}
+			if h := peelOf[sb]; h == sb && peelOf[b] != h {
+				out = append(out, n+sb.Index) // entering a peelable loop from outside
+			} else {
+				out = append(out, sb.Index)
+			}
+		}
+		return out
+	}
+	vpreds := make([][]int, 2*n)
+	exists := make([]bool, 2*n)
+	exists[0] = true
+	for changedE := true; changedE; {
+		changedE = false
+		for node := 0; node < 2*n; node++ {
+			if !exists[node] {
+				continue
+			}
+			for _, sn := range succsOf(node) {
+				found := false
+				for _, p := range vpreds[sn] {
+					if p == node {
+						found = true
+					}
+				}
+				if !found {
+					vpreds[sn] = append(vpreds[sn], node)
+				}
+				if !exists[sn] {
+					exists[sn] = true
+					changedE = true
+				}
+			}
+		}
+	}
+	in = make([]state, 2*n)
+	out = make([]state, 2*n)
+	in[0] = state{must: LocSet{}, may: LocSet{}}
 	changed := true
 	for iter := 0; changed && iter < 100; iter++ {
 		changed = false
-		for _, b := range f.Blocks {
+		for node := 0; node < 2*n; node++ {
+			if !exists[node] {
+				continue
+			}
+			b := f.Blocks[node%n]
 			var st state
-			if b.Index == 0 {
+			if node == 0 {
 				st = state{must: in[0].must.Clone(), may: in[0].may.Clone()}
 			} else {
 				st.may = LocSet{}
 				first := true
-				for _, p := range b.Preds {
-					po := out[p.Index]
+				for _, pn := range vpreds[node] {
+					po := out[pn]
 					if po.must == nil {
 						continue
 					}
@@ -1144,14 +1339,29 @@ func (fi *FuncInfo) dataflow() {
 					step(&st, ev, false)
 				}
 			}
-			if !sameSet(out[b.Index].must, st.must) || !sameSet(out[b.Index].may, st.may) {
-				out[b.Index] = st
+			if !sameSet(out[node].must, st.must) || !sameSet(out[node].may, st.may) {
+				out[node] = st
 				changed = true
 			}
 		}
 	}
 	if changed {
 		fi.A.problem(f, nil, "effect dataflow did not converge")
+	}
+	// fold the first-iteration copies back: a block's exit state is the meet/union over its copies
+	for bi := 0; bi < n; bi++ {
+		a, b := out[bi], out[n+bi]
+		switch {
+		case b.must == nil:
+		case a.must == nil:
+			out[bi] = b
+		default:
+			m := state{must: fi.meetMust(a.must, b.must), may: a.may.Clone()}
+			for l := range b.may {
+				m.may.Add(l)
+			}
+			out[bi] = m
+		}
 	}
 	// final pass: return sites
 	for _, b := range f.Blocks {
